@@ -43,7 +43,7 @@ class C16(Check):
         "HiGHS is an oracle for the constructor's simplification",
     ]
     assumptions = ["floats denote exact rationals"]
-    min_branches = {"ok": 500, "IncompatibleArgsError": 60, "fresh": 100, "to-input": 80, "to-output": 80, "absent": 80, "same": 30, "seq": 150, "cancel": 20}
+    min_branches = {"ok": 500, "IncompatibleArgsError": 60, "fresh": 100, "to-input": 80, "to-output": 80, "absent": 80, "same": 30, "seq": 150, "cancel": 20, "cancel-all": 30}
 
     def generate(self, rng, n, tier):
         out = []
@@ -56,6 +56,18 @@ class C16(Check):
             if rng.random() < 0.15 and len(ins) >= 2:
                 c["g"].append({"c": {ins[0]: 1.0, ins[1]: -1.0, outs[0]: 1.0}, "k": float(rng.randint(0, 3))})   # x - y: cancels when y -> x
             allv = ins + outs
+            if rng.random() < 0.08 and (len(ins) >= 2 or len(outs) >= 2):
+                # total cancellation: x - y <= k with x renamed to y leaves the variable-free row 0 <= k, which carries the whole
+                # meaning when k < 0 (assumptions: kept; guarantees: the constructor reports the unsatisfiable contract)
+                side, pair = ("a", ins) if (len(ins) >= 2 and (len(outs) < 2 or rng.random() < 0.6)) else ("g", outs)
+                x, y = rng.sample(pair, 2)
+                f = float(rng.choice([1, 2, -1]))
+                c[side].append({"c": {x: f, y: -f}, "k": float(rng.choice([-2, -1, -0.5, 0, 1]))})
+                if rng.random() < 0.5:
+                    out.append({"op": "rename", "c1": c, "src": x, "dst": y, "cls": "cancel-all"})
+                else:
+                    out.append({"op": "rename_all", "c1": c, "maps": [[x, y]] + ([[rng.choice(allv), "t"]] if rng.random() < 0.5 else []), "cls": "cancel-all"})
+                continue
             cls = rng.choice(["fresh", "to-input", "to-output", "absent", "same", "seq", "seq"])
             if cls == "seq":
                 k = rng.random()
